@@ -275,8 +275,19 @@ Fixpoint seg_close (tol : Q) (lens : list nat) (a b : qvecT) : bool :=
   | [] => match a, b with [], [] => true | _, _ => false end
   | k :: r => vclose_rel tol (firstn k a) (firstn k b) && seg_close tol r (skipn k a) (skipn k b)
   end.
-Definition segs_close (tol : Q) (lens : list nat) (A B : qmatT) : bool := list_eqb (seg_close tol lens) A B.
-Definition rows_close (tol : Q) (A B : qmatT) : bool := list_eqb (vclose_rel tol) A B.
+(* matrices whose ROWS come in groups of lengths lens (the blocks of the stacked system): every group relative to the
+   largest entry of the model's group -- a row that is zero by exact cancellation is compared at the scale of its block *)
+Fixpoint rows_grouped_close (tol : Q) (lens : list nat) (A B : qmatT) : bool :=
+  match lens with
+  | [] => match A, B with [], [] => true | _, _ => false end
+  | k :: r => mclose_rel tol (firstn k A) (firstn k B) && rows_grouped_close tol r (skipn k A) (skipn k B)
+  end.
+(* a list of stacked vectors (columns M e_j, each of length p = sum lens): the same, block by block across all columns *)
+Definition segs_close (tol : Q) (lens : list nat) (A B : qmatT) : bool :=
+  let p := fold_right Nat.add 0%nat lens in
+  list_eqb (fun a b => (length a =? p)%nat && (length b =? p)%nat) A B &&
+  rows_grouped_close tol lens (qtranspose p A) (qtranspose p B).
+Definition rows_close (tol : Q) (lens : list nat) (A B : qmatT) : bool := rows_grouped_close tol lens A B.
 
 Fixpoint is_diag_from (k : nat) (A : qmatT) : bool :=    (* off-diagonal entries zero, diagonal >= 0 *)
   match A with
@@ -329,7 +340,7 @@ Definition check_precompute (tol : Q) (n : nat) (ls : list (qmatT * qmatT * qvec
   forallb (lik_shape_ok n) ls &&
   seg_close tol lens o_b (q_b_tild liks pr) &&
   segs_close tol lens o_fwd (map (fun j => q_M_fwd liks pr (qunit n j)) (seq 0 n)) &&
-  rows_close tol o_adj (map (fun i => q_M_adj n liks pr (qunit p i)) (seq 0 p)).
+  rows_close tol lens o_adj (map (fun i => q_M_adj n liks pr (qunit p i)) (seq 0 p)).
 
 (* certificate for one transition: the returned point satisfies the normal equations of the MODEL's (M, b_tild), to
    within tol times the larger of |M^T y| and the initial normal residual |M^T (y - M x_cur)| (CGLS's own notion of
@@ -386,7 +397,7 @@ Definition check_tuple (tol : Q) (n : nat) (data : qvecT) (A : qmatT) (Lsp : q_s
   q_shape (length data) n A &&
   seg_close tol lens o_b (q_b_tild liks pr) &&
   segs_close tol lens o_fwd (map (fun j => q_M_fwd liks pr (qunit n j)) (seq 0 n)) &&
-  rows_close tol o_adj (map (fun i => q_M_adj n liks pr (qunit p i)) (seq 0 p)).
+  rows_close tol lens o_adj (map (fun i => q_M_adj n liks pr (qunit p i)) (seq 0 p)).
 
 (* refusals (DECISION): GMRF with a mean of another length than n *)
 Definition check_gmrf_refusal (n : nat) (S : qmatT) (mean : qvecT) (refused : bool) : bool :=
@@ -434,7 +445,7 @@ Definition check_ugla_precompute (tol : Q) (v : ugla_variant) (w : ugla_raw) (xk
   mclose_rel tol o_L2 (q_ugla_L2 c sw) &&
   seg_close tol lens o_b (q_ugla_b_tild v c sw) &&
   segs_close tol lens o_fwd (map (fun j => q_ugla_M_fwd c sw (qunit n j)) (seq 0 n)) &&
-  rows_close tol o_adj (map (fun i => q_ugla_M_adj c sw (qunit p i)) (seq 0 p)).
+  rows_close tol lens o_adj (map (fun i => q_ugla_M_adj c sw (qunit p i)) (seq 0 p)).
 
 Definition check_ugla_draws (tol : Q) (v : ugla_variant) (w : ugla_raw) (xk sw : qvecT) (draws : list (qvecT * qvecT)) : bool :=
   let c := raw_cfg w in
